@@ -452,6 +452,16 @@ Definition c18_slot (m : c18_ms) (socks : bool) : option nat := if socks then m_
 (* dispatch's routing rule *)
 Definition c18_is_socks (b : byte) : bool := Byte.eqb b x05.
 
+(* dispatch's peek at the connection:  var b [1]byte; io.ReadFull(conn, b[:])  over the connection's
+   script (zero-length reads included): the detection byte and what is left of the script for the
+   wrapper; None = the read failed (the connection is closed).  AFirstByte c b / AReadErr c of the LTS
+   are the two outcomes of this call. *)
+Definition c18_mux_peek (s : c18_script) : option (byte * c18_script) :=
+  match c18_read_full 1 s with
+  | Some ([b], s') => Some (b, s')
+  | _ => None
+  end.
+
 Definition c18_sub_is_closed (m : c18_ms) (s : nat) : bool :=
   match c18_get_sub m s with Some x => sb_closed x | None => false end.
 
